@@ -5,7 +5,7 @@ from fractions import Fraction
 from .. import taps
 from ..core import canon_hash
 from ..fundtrack import FundTracker
-from ..runnerdrive import gen_program, run_runner_case
+from ..runnerdrive import HOOK_TYPES, gen_program, run_runner_case
 
 RULE = (
     "runner drive with 2-4 markets (optionally an index market), fundamental price shocks and order-mistake "
@@ -27,13 +27,15 @@ REQUIRED = {
               "class/continuation_after_shock": 100, "class/order_replaced": 40, "class/first_order_went_elsewhere": 20,
               "class/disabled_shock_run": 10, "class/trigger_time_without_target_order": 10,
               "orders_compared_with_request": 5000, "class/shock_window_past_session_end": 5,
-              "class/shock_on_last_step_of_a_generation_chunk": 3},
+              "class/shock_on_last_step_of_a_generation_chunk": 3,
+              "class/other_events_with_always_on_hooks_in_the_run": 40},
     "thorough": {"fundamental_points_checked": 400000, "class/shocked_step": 4000,
                  "class/unshocked_other_market_step": 150000, "class/continuation_after_shock": 3000,
                  "class/order_replaced": 1200, "class/first_order_went_elsewhere": 600,
                  "class/disabled_shock_run": 300, "class/trigger_time_without_target_order": 300,
                  "orders_compared_with_request": 150000, "class/shock_window_past_session_end": 150,
-                 "class/shock_on_last_step_of_a_generation_chunk": 90},
+                 "class/shock_on_last_step_of_a_generation_chunk": 90,
+                 "class/other_events_with_always_on_hooks_in_the_run": 1200},
 }
 
 
@@ -118,6 +120,22 @@ def gen_case(rng, tier, idx):
             e["enabled"] = False
         cfg[name] = e
         cfg["simulation"]["sessions"][si].setdefault("events", []).append(name)
+    if rng.random() < 0.4:
+        # other events share the run: always-on hooks of every kind next to the shocks' time-listed ones.  The price
+        # limit is far too wide to bind (it must not change what the shocks' orders look like).
+        si = rng.randrange(ns)
+        if rng.random() < 0.6:
+            cfg["WIDE"] = {"class": "PriceLimitRule", "targetMarkets": rng.sample(mk, rng.randint(1, len(mk))),
+                           "triggerChangeRate": 10.0}
+            cfg["simulation"]["sessions"][si].setdefault("events", []).insert(0, "WIDE")
+        if rng.random() < 0.6:
+            cfg["WATCH"] = {"class": "ProbeEvent", "hooks": [
+                {"type": t_, "before": b_, "time": None} for t_, b_ in rng.sample(HOOK_TYPES, rng.randint(2, 6))]}
+            evs = cfg["simulation"]["sessions"][rng.randrange(ns)].setdefault("events", [])
+            evs.insert(rng.randrange(len(evs) + 1), "WATCH")
+    from ..runnerdrive import add_first_attempts
+
+    add_first_attempts(rng, cfg, 0.15)
     return {"drive": "runner", "seed": rng.randrange(1 << 31), "config": cfg, "profile": "shocks", "total": total}
 
 
@@ -167,7 +185,9 @@ class C14Monitor:
                 if e.get("enabled", True) is False:
                     self.disabled = True
                     continue
-                if e["class"] == "FundamentalPriceShock":
+                if e["class"] in ("PriceLimitRule", "ProbeEvent"):
+                    res.count("class/other_events_with_always_on_hooks_in_the_run")
+                elif e["class"] == "FundamentalPriceShock":
                     a = starts[si] + e["triggerTime"]
                     self.fshocks.append((e["target"], a, a + e.get("shockTimeLength", 1), e["priceChangeRate"]))
                     if a + e.get("shockTimeLength", 1) > starts[si] + s["iterationSteps"]:
